@@ -48,6 +48,8 @@ func c02Gen(archs []wsp.Arch) func(AState, int) []AOp {
 	}
 }
 
+func st0(a wsp.Arch) int64 { return int64(a.Step) }
+
 func subsetsDesc(ages []int64) [][]int64 { // every non-empty subset, oldest first
 	var out [][]int64
 	n := len(ages)
@@ -93,6 +95,19 @@ func c02Full(archs []wsp.Arch, method uint32) func(AState) []AOp {
 					op.Vals = append(op.Vals, Vals[(j+len(sub))%3])
 				}
 				ops = append(ops, op)
+			}
+			// a batch spanning the whole ring: its oldest point sits in the interval at the retention edge, its newest in
+			// the current one (at an unaligned clock the newest evicts the oldest from the ring within the same batch:
+			// the oldest coarser interval then has nothing to aggregate, the later ones still have)
+			for _, ages := range [][]int64{{a.Ret() - 1, 0}, {a.Ret() - 1, st0(a), 0}, {a.Ret() - 1, a.Ret() - st0(a) - 1, 0}} {
+				ok := true
+				for _, g := range ages {
+					ok = ok && g >= 0 && g < a.Ret()
+				}
+				if ok && !ambiguousOrder(st0(a), st.Now, ages) {
+					vals := []float64{1, 4, -2}[:len(ages)]
+					ops = append(ops, AOp{Kind: "WB", Arch: i, Ages: ages, Vals: vals})
+				}
 			}
 			// a batch whose LAST point is dated ahead of the clock (a sender with a fast clock): the earlier points are
 			// stored and every coarser slot covering them is recomputed all the same
